@@ -44,7 +44,7 @@ FNS = FNS + DEFAULTS
 KEYS = set(f.key for f in FNS)
 UNIT = Unit('ds', [
     Ghost(_t('ds_prelude.rs'), name='prelude'),
-    Src('descriptor.rs', fns=FNS, props=['C18'],
+    Src('descriptor.rs', fns=FNS, props=['C18', 'C01!'],
         keep_items=lambda kind, name: kind == 'enum' or (kind == 'impl' and name == 'DescriptorManager') or (kind == 'fn' and name.startswith('default_')),
         string_concat=True,
         keep_fns=lambda k: k in KEYS,
